@@ -92,7 +92,7 @@ fn jresult(r: &std::result::Result<Value, Error>) -> J {
 type Log = Arc<Mutex<Vec<J>>>;
 
 /// A user function with a planned list of results (consumed one per invocation; the last one repeats) and Pending polls per call.
-struct Planned { name: &'static str, cacheable: bool, results: Vec<J>, pending: usize, calls: Mutex<usize>, log: Log }
+struct Planned { name: &'static str, cacheable: bool, results: Vec<J>, by_param: Vec<J>, pending: usize, calls: Mutex<usize>, log: Log }
 
 #[async_trait::async_trait]
 impl UserFunction for Planned {
@@ -100,7 +100,9 @@ impl UserFunction for Planned {
         let n = { let mut c = self.calls.lock().unwrap(); *c += 1; *c - 1 };
         self.log.lock().unwrap().push(json!(["call", self.name, jvalue(&p)]));
         PendingN(self.pending).await;
-        let r = if self.results.is_empty() { json!({"ok": {"t": "None"}}) } else { self.results[n.min(self.results.len() - 1)].clone() };
+        let pj = jvalue(&p).to_string();
+        let keyed = self.by_param.iter().find(|e| e[0].to_string() == pj).map(|e| e[1].clone());
+        let r = if let Some(k) = keyed { k } else if self.results.is_empty() { json!({"ok": {"t": "None"}}) } else { self.results[n.min(self.results.len() - 1)].clone() };
         if r.get("ok").is_some() { Ok(value(&r["ok"])) } else { Err(anyhow::anyhow!("{}", r["err"].as_str().unwrap_or("error"))) }
     }
     fn name(&self) -> &'static str { self.name }
@@ -159,7 +161,7 @@ pub fn run(sc: &J) -> J {
         let op = st["op"].as_str().unwrap();
         let r: std::result::Result<reval::ruleset::Builder, Error> = match op {
             "function" => b.with_function(Planned { name: leak(st["name"].as_str().unwrap()), cacheable: st["cacheable"].as_bool().unwrap_or(true),
-                results: st["results"].as_array().cloned().unwrap_or_default(), pending: st["pending"].as_u64().unwrap_or(0) as usize,
+                results: st["results"].as_array().cloned().unwrap_or_default(), by_param: st["by_param"].as_array().cloned().unwrap_or_default(), pending: st["pending"].as_u64().unwrap_or(0) as usize,
                 calls: Mutex::new(0), log: log.clone() }),
             "rule" => b.with_rule(Rule::new(st["name"].as_str().unwrap(), Default::default(), expr(&st["expr"]))),
             "rules" => b.with_rules(st["rules"].as_array().unwrap().iter().map(|r| Rule::new(r["name"].as_str().unwrap(), Default::default(), expr(&r["expr"]))).collect::<Vec<_>>()),
